@@ -431,6 +431,7 @@ def explore(S, props, K, walkK, levels=(False, False)):
             break
 
     # ---- format-all ---------------------------------------------------------------------------------------------------
+    tasks = []
     for k in range(0, walkK + 1):
         for parents in parent_vectors(k):
             if S.tier == 'quick' and k == 3 and parents not in ((0, 1, 2), (0, 1, 1)):
@@ -455,12 +456,14 @@ def explore(S, props, K, walkK, levels=(False, False)):
                         ctx.witness('walk: hidden root directory', hidden(w, 0))
                         ctx.witness('walk: eligible unreadable file', b_or(*[b_and(exp[i]['attempt'], b_not(w.slots[i]['readable'])) for i in exp]))
                 name = 'cli.walk[%s%s]' % (','.join(map(str, parents)) or 'empty', '' if dir_given else ',cwd')
-                ob, ex = S.explore(name, 'main() format-all over directory tree with parent vector %r (%s): all flags, every entry file/dir/other, '
-                                   'any name (hidden or not), extension, readability, syntax errors, write failures' % (parents, 'directory given' if dir_given else 'current directory'),
-                                   body_walk, bounds=dict(mode='format-all', entries=len(parents), parents=list(parents)))
-                collect(ex, 'walk')
-                if ob.status.startswith('inconclusive'):
-                    return found
+                tasks.append((name, 'main() format-all over directory tree with parent vector %r (%s): all flags, every entry file/dir/other, '
+                              'any name (hidden or not), extension, readability, syntax errors, write failures' % (parents, 'directory given' if dir_given else 'current directory'),
+                              body_walk, dict(mode='format-all', entries=len(parents), parents=list(parents))))
+    # the largest trees first, so that the workers finish together
+    tasks.sort(key=lambda t: -t[3]['entries'])
+    for ob, viol in S.explore_batch(tasks):
+        for lab, mdl, info in viol:
+            found.append((lab.split(':')[0], lab.split(':', 1)[1], info))
     return found
 
 
